@@ -15,6 +15,11 @@ TIERS = {
     "thorough": dict(batches=[("all", 1500, 1), ("channels,chaos", 800, 1), ("calls,events", 600, 1), ("all", 150, 10)], mc_workers=16, mc_timeout=3300),
 }
 
+SWEEP = {
+    "quick": dict(programs=4, points=10),
+    "thorough": dict(programs=40, points=0),
+}
+
 MC = {"C06": ["MC_ClientChan"]}
 
 
@@ -47,13 +52,23 @@ def run(prop, tier, seed):
             if not res["ok"]:
                 verdict.violation(f"design check {cfgfile}: {res['violation']}",
                                   dict(kind="tlc-mc", config=cfgfile, module=name + ".tla", output_tail=res["raw"][-6000:]))
-    for bi, (mix, runs, schedules) in enumerate(cfg["batches"]):
+    batches = cfg["batches"] if prop != "C15" else [("sweep", SWEEP[tier]["programs"], SWEEP[tier]["points"])]
+    for bi, (mix, runs, schedules) in enumerate(batches):
         s = seed * 1000 + bi
         cpath = os.path.join(wd, f"client-{bi}.ndjson")
         bpath = os.path.join(wd, f"broker-{bi}.ndjson")
-        args = ["--seed", s, "--runs", runs, "--schedules", schedules, "--mix", mix, "--out-client", cpath, "--out-broker", bpath]
-        summ = vlib.run_driver("bus-programs", args, timeout=3000)
-        cov["runs"] += runs * schedules
+        if prop == "C15":
+            driver = "fault-sweep"
+            args = ["--seed", s, "--programs", runs, "--points", schedules, "--out-client", cpath, "--out-broker", bpath]
+            summ = vlib.run_driver(driver, args, timeout=3400)
+            cov["runs"] += summ.get("runs", 0)
+            cov["triggered"] = cov.get("triggered", 0) + summ.get("triggered", 0)
+            cov["victim_ops"] = summ.get("victim_ops", [])
+        else:
+            driver = "bus-programs"
+            args = ["--seed", s, "--runs", runs, "--schedules", schedules, "--mix", mix, "--out-client", cpath, "--out-broker", bpath]
+            summ = vlib.run_driver(driver, args, timeout=3000)
+            cov["runs"] += runs * schedules
         cov["roles"] += summ.get("roles", 0)
         recs = vlib.read_ndjson(cpath)
         cov["records"] += len(recs)
@@ -71,7 +86,7 @@ def run(prop, tier, seed):
                 start = i
         for (idx, p, why) in res["violations"]:
             a, b = vlib.run_of_record(recs, idx)
-            payload = dict(kind="bus-programs", driver_args=[str(x) for x in args], record_index=idx, run_header=recs[a],
+            payload = dict(kind=driver, driver_args=[str(x) for x in args], record_index=idx, run_header=recs[a],
                            trace=[r for r in recs[a:b] if r.get("t") != "tap"][:400], violated_at=recs[idx - 1])
             if p == prop:
                 verdict.violation(why, payload)
@@ -86,7 +101,7 @@ def run(prop, tier, seed):
                 brecs = vlib.read_ndjson(bpath)
             if p == prop or why.startswith("panic"):
                 a, b = vlib.run_of_record(brecs, idx)
-                verdict.violation(why, dict(kind="bus-programs-broker", driver_args=[str(x) for x in args], record_index=idx, trace=brecs[a:b]))
+                verdict.violation(why, dict(kind=driver + "-broker", driver_args=[str(x) for x in args], record_index=idx, trace=brecs[a:b]))
             else:
                 verdict.note(f"broker-side violation of {p} observed while checking {prop}: {why} (batch {bi}, seed {s}, record {idx})")
         conf = vlib.tlc_trace("Trace_Broker.tla", "Trace_Broker.cfg", bpath)
@@ -103,7 +118,14 @@ def run(prop, tier, seed):
         roles=cov["roles"], conformance_drifts=cov["drift"], other_property_notes=verdict.notes[:10])
     if cov["states"]:
         coverage.update(states=cov["states"], transitions=cov["transitions"], mc=cov["mc"])
-    level = "model_checking" if cov["states"] else "exploration"
+    if prop == "C15":
+        coverage["rule"] = ("one evaluation = one closed multi-client program re-run with one termination cause (k-th transport operation of the "
+                            "victim fails / victim requests shutdown / broker shutdown / forced connection shutdown / connection task dropped) "
+                            "injected at one point k of the victim's transport operations, the victim holding one value of every kind "
+                            "(battery role) whose operations are started after the cause; distinct = distinct sequences of (role, operation, result)")
+        coverage["causes_triggered"] = cov.get("triggered", 0)
+        coverage["victim_transport_ops_per_program"] = cov.get("victim_ops", [])
+    level = "model_checking" if cov["states"] else ("fault_enumeration" if prop == "C15" else "exploration")
     vlib.write_evidence(prop, tier, seed, level, coverage, time.time() - t0, verdict.violations,
                         assumptions=["programs and schedules are sampled, not exhaustive", "single-threaded executor: no data races are explored",
                                      "HashMap iteration order inside broker and client is not controlled by the seed"])
@@ -115,19 +137,20 @@ def replay(prop, path, seed):
     data = json.load(open(path))
     vlib.build_harness(["bus-driver"])
     wd = vlib.workdir(f"replay-{prop}")
-    if data.get("kind") in ("bus-programs", "bus-programs-broker"):
+    if data.get("kind", "").split("-broker")[0] in ("bus-programs", "fault-sweep"):
+        driver = data["kind"].split("-broker")[0]
         args = list(data["driver_args"])
         cpath = os.path.join(wd, "client.ndjson")
         bpath = os.path.join(wd, "broker.ndjson")
         args[args.index("--out-client") + 1] = cpath
         args[args.index("--out-broker") + 1] = bpath
-        vlib.run_driver("bus-programs", args, timeout=3000)
+        vlib.run_driver(driver, args, timeout=3400)
         res = vlib.tlc_trace("Trace_Client.tla", "Trace_Client.cfg", cpath)
         recs = vlib.read_ndjson(cpath)
         for (idx, p, why) in res["violations"]:
             if p == prop:
                 a, b = vlib.run_of_record(recs, idx)
-                verdict.violation(why, dict(kind="bus-programs", driver_args=args, record_index=idx,
+                verdict.violation(why, dict(kind=driver, driver_args=args, record_index=idx,
                                             trace=[r for r in recs[a:b] if r.get("t") != "tap"][:400]))
         log(f"re-run of the recorded driver invocation: {verdict.violations} violation(s) of {prop}")
     elif data.get("kind") == "tlc-mc":
